@@ -435,6 +435,12 @@ func (g *gen) plain(p int) ([]byte, string) {
 		b[0] = 0x60 | byte(r.Intn(16))
 		b[6], b[7] = 17, 64
 		copy(b[8:24], g.srcFor(6, p, r.Intn(10) < 7))
+		switch r.Intn(12) {
+		case 0: // ::ffff:a.b.c.d with a.b.c.d one of the sender's own IPv4 sources: the IPv6 table alone decides
+			copy(b[8:24], append([]byte{0, 0, 0, 0, 0, 0, 0, 0, 0, 0, 0xff, 0xff}, g.srcFor(4, p, true)...))
+		case 1: // ::a.b.c.d
+			copy(b[8:24], append(make([]byte, 12), g.srcFor(4, p, true)...))
+		}
 		g.fill(b[:n], 24)
 		if r.Intn(2) == 0 {
 			g.fill(b, n)
@@ -832,6 +838,47 @@ func directed() []*Scenario {
 	}
 	sc2.Evs = append(sc2.Evs, ev)
 	out = append(out, sc2)
+	// IPv4-mapped IPv6 sources: peer 0 owns 1.0.0.0/24 (IPv4 only).  ::ffff:1.0.0.1 is an IPv6 address and only the
+	// IPv6 table speaks about it: (i) nothing covers it, (ii) the /96 and the /128 belong to peer 1, (iii) ::/0 belongs to peer 2
+	m := func(v4 ...byte) []byte { return append([]byte{0, 0, 0, 0, 0, 0, 0, 0, 0, 0, 0xff, 0xff}, v4...) }
+	v6tables := [][]dpath.Entry{
+		{},
+		{{Fam: 6, Bits: m(0, 0, 0, 0), Len: 96, Owner: 1}, {Fam: 6, Bits: m(1, 0, 0, 1), Len: 128, Owner: 1}},
+		{{Fam: 6, Bits: make([]byte, 16), Len: 0, Owner: 2}},
+		{{Fam: 6, Bits: m(0, 0, 0, 0), Len: 96, Owner: 1}, {Fam: 6, Bits: make([]byte, 16), Len: 0, Owner: 2}},
+	}
+	for vi, extra := range v6tables {
+		t := append([]dpath.Entry{{Fam: 4, Bits: []byte{1, 0, 0, 0}, Len: 24, Owner: 0}, {Fam: 4, Bits: []byte{2, 0, 0, 0}, Len: 24, Owner: 1}}, extra...)
+		// configuration order is peer by peer
+		var tt []dpath.Entry
+		for p := 0; p < 3; p++ {
+			for _, e := range t {
+				if e.Owner == p {
+					tt = append(tt, e)
+				}
+			}
+		}
+		scm := &Scenario{Gen: fmt.Sprintf("directed-v4-mapped-%d", vi), NPeers: 3, BindBatch: 4, Table: tt}
+		scm.Evs = []Ev{{Kind: "hs", Peer: 0}, {Kind: "hs", Peer: 1}, {Kind: "hs", Peer: 2}}
+		srcs := [][]byte{m(1, 0, 0, 1), m(1, 0, 0, 255), m(2, 0, 0, 1), append(make([]byte, 12), 1, 0, 0, 1), make([]byte, 16), m(255, 255, 255, 255),
+			{0xff, 0xff, 0xff, 0xff, 0xff, 0xff, 0xff, 0xff, 0xff, 0xff, 0xff, 0xff, 0xff, 0xff, 0xff, 0xff}}
+		ctr := []uint64{1, 1, 1}
+		for _, src := range srcs {
+			ev := Ev{Kind: "dg"}
+			for p := 0; p < 3; p++ {
+				ev.Dgs = append(ev.Dgs, Dg{Sess: p + 1, IdxOf: p + 1, Ctr: ctr[p], Plain: ref.Pad(v6pkt(src, 21, 61)), Note: "v6-mapped-src"})
+				ctr[p]++
+			}
+			scm.Evs = append(scm.Evs, ev)
+		}
+		ev := Ev{Kind: "dg"} // the IPv4 addresses themselves, for contrast
+		for p := 0; p < 3; p++ {
+			ev.Dgs = append(ev.Dgs, Dg{Sess: p + 1, IdxOf: p + 1, Ctr: ctr[p], Plain: ref.Pad(v4([4]byte{1, 0, 0, 1}, 40))},
+				Dg{Sess: p + 1, IdxOf: p + 1, Ctr: ctr[p] + 1, Plain: ref.Pad(v4([4]byte{2, 0, 0, 1}, 41))})
+		}
+		scm.Evs = append(scm.Evs, ev)
+		out = append(out, scm)
+	}
 	// restart of the interface at every stage of a handshake: previous, current and an offered (unconfirmed) key
 	// all end with Down; nothing under them is delivered after Up until a new handshake
 	pk := func(n int) []byte { return ref.Pad(v4([4]byte{10, 1, 1, 1}, n)) }
